@@ -944,4 +944,99 @@ theorem inv_stepWait {w : World} (h : Inv w) : Inv (stepWait w) := by
       · apply inv_settle
         exact h.setProc _ _ hPo
 
+/-! ### every benign action, every sequence of them -/
+
+theorem inv_step {w : World} (h : Inv w) (a : Action) (hb : a.benign = true) : Inv (step w a) := by
+  cases a with
+  | restart =>
+    simp only [step]
+    split
+    · refine h.setProc _ _ ?_
+      unfold PInv
+      exact ⟨rfl, rfl, rfl, rfl⟩
+    · exact h
+  | crash =>
+    simp only [step]
+    refine h.frame rfl rfl rfl rfl rfl ?_ ?_
+    · obtain ⟨st, hf, hg⟩ := h.file
+      exact ⟨st, hf, hg.mono (Inv.grows_self rfl rfl rfl)⟩
+    · intro p hp; cases hp
+  | fs => exact inv_stepFs h
+  | fetch => exact inv_stepFetch h
+  | bcast o => exact inv_stepBcast h o
+  | gettx m => exact inv_stepGetTx h m
+  | giveup => exact inv_stepGiveup h
+  | wait => exact inv_stepWait h
+  | bump n =>
+    simp only [step]
+    refine h.frame rfl rfl rfl rfl rfl ?_ ?_
+    · obtain ⟨st, hf, hg⟩ := h.file
+      exact ⟨st, hf, hg.mono (Inv.grows_self rfl rfl rfl)⟩
+    · intro p hp
+      refine PInv.mono ?_ ?_ (h.proc p hp)
+      · exact Inv.grows_self rfl rfl rfl
+      · rfl
+  | «include» t =>
+    simp only [step]
+    split
+    · rename_i hm
+      have g : Grows w { w with mempool := w.mempool.erase t, cheight := w.cheight + 1,
+                                chain := w.chain ++ [(w.cheight + 1, t)] } :=
+        ⟨rfl, fun _ h => h, fun e he => List.mem_append_left _ he⟩
+      refine ⟨h.ids, ?_, ?_, fun tx htx => (h.attach tx htx).mono g, ?_, ?_, h.exits⟩
+      · intro e he
+        rcases List.mem_append.1 he with h1 | h1
+        · exact h.chainIds e h1
+        · rw [List.mem_singleton.1 h1]; exact h.memIds t hm
+      · intro t' ht'
+        exact h.memIds t' (List.mem_of_mem_erase ht')
+      · obtain ⟨st, hf, hg⟩ := h.file
+        exact ⟨st, hf, hg.mono g⟩
+      · intro p hp
+        exact (h.proc p hp).mono g rfl
+    · exact h
+  | drop t =>
+    simp only [step]
+    split
+    · refine h.frameMem rfl rfl rfl ?_ rfl rfl rfl ?_
+      · intro t' ht'
+        exact h.memIds t' (List.mem_of_mem_erase ht')
+      · intro p hp; exact h.proc p hp
+    · exact h
+  | corruptTmp c =>
+    simp only [step]
+    split
+    · rename_i hp
+      refine h.frame rfl rfl rfl rfl rfl ?_ ?_
+      · obtain ⟨st, hf, hg⟩ := h.file
+        exact ⟨st, hf, hg.mono (Inv.grows_self rfl rfl rfl)⟩
+      · intro p hp'
+        rw [hp] at hp'
+        cases hp'
+    · exact h
+  | tamperFile c => simp [Action.benign] at hb
+
+theorem inv_init (base ch : Nat) : Inv (init base ch) := by
+  refine ⟨rfl, ?_, ?_, ?_, ?_, ?_, rfl⟩
+  · intro e he; simp [init] at he
+  · intro t ht; simp [init] at ht
+  · intro tx htx; simp [init] at htx
+  · by_cases hb : base = 0
+    · refine ⟨.fresh, by simp [init, hb], ?_⟩
+      simp [GoodSt, init, hb]
+    · refine ⟨.started ⟨ch, base⟩, by simp [init, hb], ?_⟩
+      refine ⟨Nat.le_refl _, ?_⟩
+      intro k hk hle
+      simp [init] at hk hle
+      omega
+  · intro p hp; simp [init] at hp
+
+theorem inv_run {w : World} (h : Inv w) (acts : List Action) (hb : ∀ a ∈ acts, a.benign = true) :
+    Inv (run w acts) := by
+  induction acts generalizing w with
+  | nil => exact h
+  | cons a as ih =>
+    simp only [run, List.foldl_cons]
+    exact ih (inv_step h a (hb a (List.mem_cons_self ..))) (fun b hb' => hb b (List.mem_cons_of_mem _ hb'))
+
 end Astria.RelayerCrash
